@@ -215,6 +215,19 @@ theorem stateful_exact (ledger : List TxId) (tx : TxId) :
   unfold statefulCheck
   by_cases h : tx ∈ ledger <;> simp [h]
 
+/-- With a ledger lookup that can fail (LevelDB closed or faulty under the running validator): a lookup error never
+yields `ok` — the verdict is `ok` only if the ledger positively answered "not contained" (store readable and the
+transaction neither cached nor stored); a failed lookup yields `unknown`; `dup` is only ever reported for a
+transaction that is in the ledger (given that cached transactions are committed ones). -/
+theorem stateful_lookup_error_never_ok (cached ledger : List TxId) (storeOk : Bool) (tx : TxId) :
+    (statefulCheckE cached ledger storeOk tx = .ok ↔ storeOk = true ∧ tx ∉ cached ∧ tx ∉ ledger) ∧
+    (storeOk = false → tx ∉ cached → statefulCheckE cached ledger storeOk tx = .unknown) ∧
+    ((∀ t ∈ cached, t ∈ ledger) → statefulCheckE cached ledger storeOk tx = .dup → tx ∈ ledger) ∧
+    (storeOk = true → statefulCheckE cached ledger storeOk tx = (if tx ∈ cached ∨ tx ∈ ledger then .dup else .ok)) := by
+  unfold statefulCheckE
+  by_cases hc : tx ∈ cached <;> by_cases hl : tx ∈ ledger <;> cases storeOk <;> simp [hc, hl]
+  all_goals exact ⟨tx, hc, hl⟩
+
 /-! Non-vacuity: capacity 2, three contiguous blocks, a gap, then queries. -/
 example :
     let s := ((((new 2).addBlock 10 [1, 2]).addBlock 11 [3]).addBlock 12 [1]).addBlock 14 [9]
